@@ -14,8 +14,8 @@ SUFFIX_POOL = ["", "é", "ж", "\U0001d11e"]
 NAME_POOL = ["nm", "va", "q7", "zed"]
 # second variable (read-only / bound name of the statement family)
 NAME2_POOL = ["rr", "wq", "k9", "yot"]
-# builtins that are deterministic both as a value and when called with a 1-character string
-BUILTIN_POOL = ["len", "repr", "ord", "ascii"]
+# builtins that are deterministic as a value and return a str when called with a 1-character string
+BUILTIN_POOL = ["repr", "ascii", "format", "max"]
 
 
 def _mk_tagger(tag):
@@ -53,6 +53,31 @@ def boom(v=None):
 
 def ident(v):
     return v
+
+
+class Base:
+    """a base class supplied through the context (`class b(rbase): pass`)"""
+
+
+def show(v):
+    """address-free text of any value a statement form may bind (the same for mako's and the reference's UNDEFINED)"""
+    import types
+
+    if isinstance(v, str):
+        return v
+    if type(v).__name__ in ("Undefined", "RefUndefined"):
+        return "U"
+    if isinstance(v, type):
+        return "class:" + v.__name__
+    if isinstance(v, types.ModuleType):
+        return "module:" + v.__name__
+    if isinstance(v, BaseException):
+        return "exc:" + type(v).__name__
+    if isinstance(v, (list, tuple)):
+        return type(v).__name__ + "(" + ",".join(show(i) for i in v) + ")"
+    if callable(v):
+        return "callable:" + getattr(v, "__name__", "?")
+    return type(v).__name__ + ":" + repr(v)
 
 
 def resolve(v):
